@@ -518,6 +518,7 @@ fn run_grid_task(path: &std::path::Path, ppem: u32, out: &mut GridOut) {
                     }
                     Ok(Ok(sk_adv)) => {
                         *out.counters.entry("grid.glyphs_compared".into()).or_default() += 1;
+                        *out.counters.entry(format!("grid.compared.{fname}")).or_default() += 1;
                         if !ft_outline.is_empty() {
                             out.nontrivial.push(fnv(key.as_bytes()));
                         }
@@ -544,11 +545,13 @@ fn run_grid_task(path: &std::path::Path, ppem: u32, out: &mut GridOut) {
 
 fn grid(st: &mut Stats, thorough: bool) {
     let mut ppems: Vec<u32> = vec![0];
+    // the whole grid costs about a second, so the quick tier already runs the dense grid
     if thorough {
+        ppems.extend(4..=256);
+        ppems.extend([300, 400, 512, 768, 1000, 2000, 4000]);
+    } else {
         ppems.extend(6..=64);
         ppems.extend([72, 96, 128, 256, 1000]);
-    } else {
-        ppems.extend(8..=40);
     }
     let files = font_files();
     let mut tasks: Vec<(std::path::PathBuf, u32)> = vec![];
@@ -594,16 +597,67 @@ fn grid(st: &mut Stats, thorough: bool) {
     st.v.insert("grid_fonts".into(), files.len().into());
     st.v.insert("grid_ppem_sizes".into(), ppems.len().into());
     st.v.insert("grid_mismatches".into(), failures.len().into());
-    // a compact list of all failing keys (the oracle_failures list itself is capped)
+    // every failing instance key (the per-instance key is "<font>:<glyph>:<ppem>:<mode>")
     let keys: Vec<String> = failures.iter().map(|f| format!("{} | {}", f["key"].as_str().unwrap_or(""), f["what"].as_str().unwrap_or(""))).collect();
-    st.v.insert("grid_mismatch_keys".into(), json!(keys.iter().take(20000).collect::<Vec<_>>()));
+    st.v.insert("grid_mismatch_keys".into(), json!(keys.iter().take(3000).collect::<Vec<_>>()));
+    // One oracle failure per (font, glyph, mode): key "<font>:<glyph>:*:<mode>", carrying the list of
+    // failing ppem sizes and both paths of the first failing instance.
+    let mut groups: BTreeMap<String, (serde_json::Value, Vec<String>)> = BTreeMap::new();
     for f in failures {
+        let key = f["key"].as_str().unwrap_or("").to_string();
+        let parts: Vec<&str> = key.rsplitn(4, ':').collect(); // mode, ppem, glyph, font
+        let gkey = format!("{}:{}:*:{}", parts[3], parts[2], parts[0]);
+        let e = groups.entry(gkey).or_insert_with(|| (f.clone(), vec![]));
+        e.1.push(parts[1].to_string());
+    }
+    st.v.insert("grid_mismatch_groups".into(), json!(groups.keys().collect::<Vec<_>>()));
+    for (gkey, (first, ppems)) in groups {
+        let mut f = first;
+        f["first_instance"] = f["key"].clone();
+        f["key"] = json!(gkey);
+        f["failing_ppems"] = json!(ppems);
         st.oracle_failure(f);
+    }
+}
+
+/// development aid (`c03 probe <font> <gid> <ppem>`): pedantic-mode outcome of both interpreters
+fn probe(args: &[String]) {
+    use freetype::face::LoadFlag;
+    use skrifa::outline::{DrawSettings, HintingInstance, HintingOptions};
+    use skrifa::prelude::Size;
+    use skrifa::MetadataProvider;
+    let data = std::fs::read(&args[2]).unwrap();
+    let gid: u32 = args[3].parse().unwrap();
+    let ppem: u32 = args[4].parse().unwrap();
+    let lib = freetype::Library::init().unwrap();
+    let face = lib.new_memory_face(data.clone(), 0).unwrap();
+    face.set_pixel_sizes(ppem, ppem).unwrap();
+    for (name, flags) in [("mono", LoadFlag::TARGET_MONO), ("normal", LoadFlag::TARGET_NORMAL)] {
+        let r = face.load_glyph(gid, LoadFlag::NO_BITMAP | LoadFlag::NO_AUTOHINT | LoadFlag::PEDANTIC | flags);
+        println!("freetype pedantic {name}: {:?}", r);
+    }
+    let font = skrifa::FontRef::new(&data).unwrap();
+    let outlines = font.outline_glyphs();
+    for (name, target) in [("mono", skrifa::outline::Target::Mono), ("normal", skrifa::outline::SmoothMode::Normal.into())] {
+        let h = HintingInstance::new(&outlines, Size::new(ppem as f32), skrifa::instance::LocationRef::default(),
+            HintingOptions { engine: skrifa::outline::Engine::Interpreter, target });
+        match h {
+            Err(e) => println!("skrifa hinting instance {name}: error {e:?}"),
+            Ok(h) => {
+                let g = outlines.get(GlyphId::new(gid)).unwrap();
+                let mut v: Vec<PathElement> = vec![];
+                let r = g.draw(DrawSettings::hinted(&h, true), &mut v);
+                println!("skrifa pedantic {name}: {:?}", r.map(|m| m.advance_width));
+            }
+        }
     }
 }
 
 fn main() {
     let args: Vec<String> = std::env::args().collect();
+    if args.get(1).map(|s| s == "probe").unwrap_or(false) {
+        return probe(&args);
+    }
     let thorough = tier_is_thorough(&args);
     let seed = seed_from_env();
     let dir = out_dir(&args, "C03");
